@@ -6,6 +6,7 @@ import (
 	"math/rand"
 	"os"
 	"path/filepath"
+	"strings"
 	"sync"
 	"time"
 
@@ -35,7 +36,7 @@ var c10FaultKinds = []string{"ok", "ok", "ok", "notfound", "error", "delay", "tr
 func c10(r *hx.Run) {
 	r.MaxViol = 6 // violations here usually cost a watchdog period each
 	r.Level = "fault_enumeration"
-	r.Rule = "histories on 6 keys in a cache of 16 entries backed by a scripted store: steps drawn from {burst of 1-4 requests, clock advance, purge, eviction by filler keys}; every store call (get/set/delete) draws a fault from {ok, not-found, error, delay 1-30 ms, value truncated at a random offset, random bytes, bit flip in the first 64 bytes, bit flip elsewhere, status field overwritten (0,1,4,99), empty value}. The origin is always healthy. Judged per request: 200 with the key's own intact body, a hit only of a still-valid version, a memory-resident hit without any store read, the request that received an undecodable record is an ordinary fetching miss, nobody stranded (hooked entry state at quiescence). A garbled value that still decodes (the harness decodes it itself) only taints the key: errors and hangs are judged, altered content is the known class undetectable-corruption. Finally the configured store cannot be opened at all (badger directory below a regular file, redis nobody listens on): the cache serves memory-only. Non-trivial = history in which >=1 injected fault reached a store call of a judged key; distinct = fault kind x operation x step kind."
+	r.Rule = "histories on 6 keys in a cache of 16 entries backed by a scripted store: steps drawn from {burst of 1-4 requests, clock advance, purge, eviction by filler keys}; every store call (get/set/delete) draws a fault from {ok, not-found, error, delay 1-30 ms, value truncated at a random offset, random bytes, bit flip in the first 64 bytes, bit flip elsewhere, status field overwritten (0,1,4,99), empty value}. The origin is always healthy. Judged per request: 200 with the key's own intact body, a hit only of a still-valid version, a memory-resident hit without any store read, the request that received an undecodable record is an ordinary fetching miss, nobody stranded (hooked entry state at quiescence). A garbled value that still decodes (the harness decodes it itself) only taints the key: errors and hangs are judged, altered content is the known class undetectable-corruption. Directed: the store goes down after start-up (every call fails) - responses are cached memory-only and a purge still empties the memory. Finally the configured store cannot be opened at all (badger directory below a regular file, redis nobody listens on): the cache serves memory-only. Non-trivial = history in which >=1 injected fault reached a store call of a judged key; distinct = fault kind x operation x step kind."
 	r.Assume = []string{"virtual clock; -race build", "a purge whose store delete failed may resurrect the old record later (not judged)", "without an integrity field pike cannot detect corruption that leaves a record well-formed"}
 	rnd := rand.New(rand.NewSource(r.Seed))
 	storeURL := fmt.Sprintf("mem://c10/%d", r.Seed)
@@ -50,6 +51,7 @@ func c10(r *hx.Run) {
 	var fmu sync.Mutex
 	frnd := rand.New(rand.NewSource(r.Seed + 7))
 	faultsOn := false
+	storeDown := false // directed cases: every store call on /d10 keys fails
 	type lastFault struct {
 		kind      string
 		decodable bool
@@ -60,6 +62,10 @@ func c10(r *hx.Run) {
 	ms.Script = func(op, key string, cur []byte) hx.StoreFault {
 		fmu.Lock()
 		defer fmu.Unlock()
+		if strings.HasPrefix(key, "GET c10.example /d10") && storeDown {
+			// directed: the store is down - every call fails
+			return hx.StoreFault{Kind: "error"}
+		}
 		if !faultsOn || len(key) < 20 || key[:20] != "GET c10.example /c10" {
 			return hx.StoreFault{}
 		}
@@ -277,6 +283,12 @@ func c10(r *hx.Run) {
 							r.Add("purges_with_failed_store_delete", 1)
 						}
 					}
+					if _, still := ms.Peek(k.key); k.purgeBad && !still {
+						// the delete failed, but there is no record to come back (an earlier write was lost):
+						// the entry is gone from memory, so the purge is as complete as any other
+						k.purgeBad = false
+						r.Add("purges_with_failed_store_delete_and_nothing_persisted", 1)
+					}
 					if !k.purgeBad {
 						k.versions = map[int64]c10Version{}
 					}
@@ -307,6 +319,40 @@ func c10(r *hx.Run) {
 	r.Set("faults_injected_by_op_and_kind", faultCount)
 	fmu.Unlock()
 	r.Set("points_hit", w.Pts.Counts())
+	// directed: the store goes down after start-up. A response is cached memory-only (its write failed), then
+	// purged (the delete fails too, and there is no record that could come back): the purge still empties
+	// the memory, so the next request goes to the upstream
+	for i := 0; i < r.Pick(6, 200) && !r.TooMany(); i++ {
+		uri := fmt.Sprintf("/d10/%d/%d", r.Seed, i)
+		key := "GET c10.example " + uri
+		fmu.Lock()
+		storeDown = true
+		fmu.Unlock()
+		get := func() *hx.Result {
+			return w.Cl.Do(hx.Req{Addr: w.Addr, Host: "c10.example", URI: uri, Timeout: 8 * time.Second})
+		}
+		first, second := get(), get()
+		cache.RemoveHTTPCache("c10", []byte(key))
+		third := get()
+		fmu.Lock()
+		storeDown = false
+		fmu.Unlock()
+		_, persisted := ms.Peek(key)
+		r.Eval(1)
+		r.Add("purges_while_the_store_is_down", 1)
+		cs := map[string]interface{}{"uri": uri}
+		switch {
+		case first.Err != nil || second.Err != nil || third.Err != nil || first.Status != 200 || second.Status != 200 || third.Status != 200:
+			r.Violate("request_failed_while_store_down", nil, "requests fail while every store call fails", map[string]interface{}{"first": first.Brief(), "second": second.Brief(), "third": third.Brief()}, cs)
+		case second.Label != "hit":
+			r.Violate("not_degraded_to_memory_only", nil, fmt.Sprintf("with the store down the second request is labelled %q (memory-only caching expected)", second.Label), second.Brief(), cs)
+		case !persisted && third.Label == "hit" && third.FetchID == first.FetchID:
+			r.Violate("purged_version_served_while_store_down", nil, "a purge issued while the store is down left the entry in memory: the next request is a hit of the purged version", map[string]interface{}{"before_purge": second.Brief(), "after_purge": third.Brief()}, cs)
+		default:
+			r.Distinct("purge_while_store_down")
+		}
+		w.Clock.Advance(10)
+	}
 	c10UnusableStore(r)
 	checkRaceLog(r)
 }
